@@ -351,13 +351,11 @@ Proof.
   intros sz ecb ops r H.
   destruct (inv_cause_run sz ecb ops) as [_ [_ [HC _]]]. destruct (HC r H) as [Hr [Hrun Hn]].
   destruct (each_once sz ecb ops) as [Hruns Hperm]. rewrite Hrun in Hperm. cbn [app] in Hperm.
-  repeat split; try assumption.
-  - intros ops'. rewrite run_app. revert Hrun Hn. generalize (run sz ecb ops).
-    induction ops' as [|o l IH]; intros s Hrun Hn; [reflexivity|]. cbn [fold_left].
-    destruct (step_ncause s o Hn) as [Hn' [Hc' Hr']]. rewrite IH; auto.
-  - intros ops'. rewrite run_app. revert Hrun Hn. generalize (run sz ecb ops).
-    induction ops' as [|o l IH]; intros s Hrun Hn; [assumption|]. cbn [fold_left].
-    destruct (step_ncause s o Hn) as [Hn' [Hc' Hr']]. apply IH; auto.
+  split; [assumption|]. split; [assumption|]. split; [assumption|]. split; [assumption|].
+  intros ops'. rewrite run_app. revert Hrun Hn. generalize (run sz ecb ops).
+  induction ops' as [|o l IH]; intros s Hrun Hn; [auto|]. cbn [fold_left].
+  destruct (step_ncause s o Hn) as [Hn' [Hc' Hr']].
+  destruct (IH (step_st s o) (Hr' Hrun) Hn') as [H1 H2]. split; [congruence|assumption].
 Qed.
 
 (* Wait returned an error: it is the recorded cause, which never changes afterwards *)
@@ -371,6 +369,12 @@ Qed.
 
 (* where a job error as cause comes from: that job failed while it was running, no cause was
    recorded before, on a worker that is not an ErrCallback worker *)
+Lemma settle_pending_wret : forall s, wret (fst (settle_pending s)) = wret s /\ cause (fst (settle_pending s)) = cause s.
+Proof.
+  intros s. unfold settle_pending. destruct (pending s); [|auto].
+  destruct (ncause s); [auto|]. destruct (length (running s) <? size s); auto.
+Qed.
+
 Lemma settle_cause_origin : forall s e, cause (fst (settle s)) = Some e ->
   cause s = Some e \/ (cause s = None /\ e = ECanceled).
 Proof.
@@ -462,7 +466,7 @@ Lemma trace_jobs_app : forall a b, trace_jobs (a ++ b) = trace_jobs a ++ trace_j
 Proof. induction a as [|[l|i l] a IH]; intros; cbn; rewrite ?IH; reflexivity. Qed.
 
 Lemma trace_jobs_map : forall o last, trace_jobs (map (fun i => BJob i last) o) = o.
-Proof. induction o; intros; cbn; congruence. Qed.
+Proof. induction o as [|x o IH]; intros; cbn; [reflexivity|rewrite IH; reflexivity]. Qed.
 
 Lemma trace_jobs_expected : forall bs orders, length orders = length bs ->
   trace_jobs (expected_trace bs orders) = concat orders.
